@@ -54,6 +54,14 @@ fn gen_type(rng: &mut Rng, depth: u32) -> Type {
             _ => array_type(vec![1 + rng.below(3), 1 + rng.below(3), 1 + rng.below(3)], st),
         };
     }
+    if rng.chance(1, 5) {
+        // tuples of EQUAL component types (points, triples of equal arrays, triples of triples): such a secret has the
+        // shape of a share triple itself
+        let e = gen_type(rng, depth - 1);
+        let k = 2 + rng.usize_below(3);
+        let t = tuple_type(vec![e; k]);
+        return if rng.chance(1, 4) { tuple_type(vec![t.clone(), t.clone(), t]) } else { t };
+    }
     match rng.below(3) {
         0 => tuple_type((0..rng.below(4)).map(|_| gen_type(rng, depth - 1)).collect()),
         1 => vector_type(rng.below(4), gen_type(rng, depth - 1)),
